@@ -73,3 +73,25 @@ package ipam
 //@   loop 1 invariant !c21Stale && !c21Touched && (forall j int :: 0 <= j && j < len(ordinals) ==> c21OK[ordinals[j]])
 //@   loop 3 invariant -1 <= rangeindex && rangeindex < len(ordinals) && (forall j int :: 0 <= j && j < len(ordinals) ==> c21OK[ordinals[j]])
 //@   loop 2 invariant !c21Stale && !c21Touched
+
+//@ -- ---------------------------------------------------------------- C19: one owner per address (block level)
+//@ -- Representation invariant of a block: the free list names only in-range, currently free slots, each once.
+//@ -- Given it, assigning an address (explicitly or automatically) never overwrites a slot that is already
+//@ -- allocated - so an address recorded for one owner is never handed to a second one - and re-establishes it.
+//@ spec macro blkU(b *allocationBlock) []int = b.AllocationBlock.Unallocated
+//@ spec macro blkA(b *allocationBlock) []*int = b.AllocationBlock.Allocations
+//@ spec macro blkWF(b *allocationBlock) bool = b != nil && b.AllocationBlock != nil && (forall i int :: 0 <= i && i < len(blkU(b)) ==> 0 <= blkU(b)[i] && blkU(b)[i] < len(blkA(b)) && blkA(b)[blkU(b)[i]] == nil) && (forall i int, j int :: 0 <= i && i < j && j < len(blkU(b)) ==> blkU(b)[i] != blkU(b)[j])
+//@ func (*allocationBlock).assign
+//@   property C19
+//@   option safety off
+//@   option absindex
+//@   option mathint
+//@   option stable (*allocationBlock).AllocationBlock, (*model.AllocationBlock).Allocations, (*model.AllocationBlock).Unallocated, []int, []*int
+//@   requires blkWF(b)
+//@   ensures b.AllocationBlock != nil
+//@   ensures forall i int :: 0 <= i && i < len(blkU(b)) ==> 0 <= blkU(b)[i] && blkU(b)[i] < len(blkA(b))
+//@   ensures forall i int :: 0 <= i && i < len(blkU(b)) ==> blkA(b)[blkU(b)[i]] == nil
+//@   ensures forall i int, j int :: 0 <= i && i < j && j < len(blkU(b)) ==> blkU(b)[i] != blkU(b)[j]
+//@   ensures len(blkA(b)) == old(len(blkA(b)))
+//@   ensures forall j int :: 0 <= j && j < len(blkA(b)) && old(blkA(b)[j]) != nil ==> blkA(b)[j] == old(blkA(b)[j])
+//@   loop 1 invariant -1 <= rangeindex && rangeindex < len(blkU(b)) && (forall p int :: 0 <= p && p <= rangeindex ==> blkU(b)[p] != ordinal)
